@@ -49,7 +49,7 @@ func execOracle(c *ExecCase) (string, *ref.Result) {
 	}
 	want := ref.Execute(c.Schema, c.Doc, c.OpName, c.Vars, c.World)
 	var plan *graphql.Plan
-	for _, entry := range []string{"do", "execute", "plan", "plan"} {
+	for _, entry := range []string{"do", "execute", "plan", "planzero"} {
 		lr, err := runEntry(b, c, text, entry, &plan)
 		if err != nil {
 			return fmt.Sprintf("HARNESS(%s): %v\n%s", entry, err, text), want
